@@ -32,6 +32,11 @@ fn check_value(e: En, code: Code, v: u64, ci: usize, _ctx_seed: u64, lm: u128, r
     if !materialise || mlen > lm {
         return;
     }
+    // the byte-stream functions of the VByte codes return a length too: it must be the length function's
+    // value whatever the std::io sink does (short writes, interruptions), or an error
+    if matches!(code, Code::VByteBe) && e == En::BE {
+        super::c18::check_hostile_io(v, ci, rep);
+    }
     // (b) write return value, growth of the stream in bits, bits consumed by the read
     let wms = write_methods(code);
     for (mi, wop) in wms.iter().enumerate() {
